@@ -36,7 +36,7 @@ func op_weights[K comparable, V any](t *TinyLfu[K, V]) bool {
 }
 
 // the hill climber's step never exceeds 1/16 of the capacity in magnitude (so float->int is defined)
-func sp_stepInv[K comparable, V any](t *TinyLfu[K, V]) bool {
+func op_step[K comparable, V any](t *TinyLfu[K, V]) bool {
 	return t.step <= float32(t.capacity)*HILL_CLIMBER_STEP_PERCENT && -t.step <= float32(t.capacity)*HILL_CLIMBER_STEP_PERCENT
 }
 
@@ -55,7 +55,7 @@ func sp_totalInv[K comparable, V any](t *TinyLfu[K, V]) bool {
 // PolicyInv: the representation invariant of the eviction policy (C07)
 func sp_policyInv[K comparable, V any](t *TinyLfu[K, V]) bool {
 	return sp_tlfuShape(t) && sp_listInv(t.window) && sp_listInv(t.slru.probation) && sp_listInv(t.slru.protected) &&
-		sp_totalInv(t) && op_clean(t) && sp_capInv(t) && op_weights(t) && sp_stepInv(t)
+		sp_totalInv(t) && op_clean(t) && sp_capInv(t) && op_weights(t) && op_step(t)
 }
 
 // nothing about the tracked set, the weights or the sizes changed
@@ -71,7 +71,7 @@ func sp_sameTracked[K comparable, V any](t *TinyLfu[K, V]) bool {
 
 // protected overflow is moved to probation
 func (t *TinyLfu[K, V]) spec_demoteFromProtected() {
-	reveal("op_clean", "op_weights")
+	reveal("op_clean", "op_weights", "op_flags")
 	requires("inv", sp_policyInv(t))
 	ensures("inv", sp_policyInv(t))
 	ensures("same", sp_sameTracked(t))
@@ -91,7 +91,7 @@ func (t *TinyLfu[K, V]) spec_demoteFromProtected_loop1() {
 // window overflow is moved to probation; returns the first entry moved (nil if none)
 func (t *TinyLfu[K, V]) spec_evictFromWindow() (first *Entry[K, V]) {
 	flag("split_paths")
-	reveal("op_clean", "op_weights")
+	reveal("op_clean", "op_weights", "op_flags")
 	requires("inv", sp_policyInv(t))
 	ensures("inv", sp_policyInv(t))
 	ensures("same", sp_sameTracked(t))
@@ -151,17 +151,18 @@ func sp_amountOK[K comparable, V any](t *TinyLfu[K, V]) bool {
 }
 
 func (t *TinyLfu[K, V]) spec_climb() {
-	requires("caps", sp_tlfuShape(t) && sp_capInv(t) && sp_stepInv(t))
+	reveal("op_step")
+	requires("caps", sp_tlfuShape(t) && sp_capInv(t) && op_step(t))
 	modifies(t.hr, t.step, t.amount, t.hitsInSample, t.missesInSample)
 	ensures("clamp", sp_amountOK(t))
-	ensures("step", sp_stepInv(t))
+	ensures("step", op_step(t))
 	ensures("samples", t.hitsInSample == 0 && t.missesInSample == 0)
 }
 
 // move entries from probation/protected to the window while they fit into amount; returns what is left
 func (t *TinyLfu[K, V]) spec_increaseWindow(amount int) (r int) {
 	flag("split_paths")
-	reveal("op_clean", "op_weights")
+	reveal("op_clean", "op_weights", "op_flags")
 	requires("inv", sp_policyInv(t))
 	requires("amount", amount >= 0 && amount <= 1<<62)
 	ensures("inv", sp_policyInv(t))
@@ -180,7 +181,7 @@ func (t *TinyLfu[K, V]) spec_increaseWindow_loop1(amount int) {
 }
 
 func (t *TinyLfu[K, V]) spec_decreaseWindow(amount int) (r int) {
-	reveal("op_clean", "op_weights")
+	reveal("op_clean", "op_weights", "op_flags")
 	requires("inv", sp_policyInv(t))
 	requires("amount", amount >= 0 && amount <= 1<<62)
 	ensures("inv", sp_policyInv(t))
@@ -318,7 +319,7 @@ func (t *TinyLfu[K, V]) spec_UpdateCost(entry *Entry[K, V], weightChange int64) 
 	reveal("op_clean", "op_weights", "op_flags", "op_acct", "op_acctP")
 	requires("shape", sp_tlfuShape(t) && sp_listInvNoAcct(t.window) && sp_listInvNoAcct(t.slru.probation) && sp_listInvNoAcct(t.slru.protected))
 	requires("pending", sp_acctPending(t.window, entry, weightChange) && sp_acctPending(t.slru.probation, entry, weightChange) && sp_acctPending(t.slru.protected, entry, weightChange))
-	requires("rest", sp_totalInv(t) && op_clean(t) && sp_capInv(t) && op_weights(t) && sp_stepInv(t))
+	requires("rest", sp_totalInv(t) && op_clean(t) && sp_capInv(t) && op_weights(t) && op_step(t))
 	requires("tracked", entry != nil && sp_tracked(t, entry))
 	requires("sketch", sp_sketchInv(t.sketch) && t.hasher != nil)
 	ensures("inv", sp_policyInv(t))
